@@ -52,7 +52,7 @@ old.update(out)
 json.dump(old,open(f'{V}/seeded/MATRIX.json','w'),indent=1,sort_keys=True)
 with open(f'{V}/seeded/MATRIX.md','w') as f:
     note='Each change was applied to a scratch worktree of /repo HEAD and every registered quick check was run against it (tools/seed_matrix.py).'
-    if os.environ.get('OWN_UPDATE'): note='Each change was applied to a scratch worktree of /repo HEAD (' + subprocess.run(['git','-C','/repo','rev-parse','--short','HEAD'],capture_output=True,text=True).stdout.strip() + ') and the quick check of ITS OWN property was run against it with the final checker (tools/seed_matrix.py, OWN_UPDATE). The column of OTHER checks is what the last full run found (previous session, /repo e686943, seeds a-j only; a full 340 x 20 run did not fit into this session) and is empty for the seeds k-t.'
+    if os.environ.get('OWN_UPDATE'): note='Each change was applied to a scratch worktree of /repo HEAD (' + subprocess.run(['git','-C','/repo','rev-parse','--short','HEAD'],capture_output=True,text=True).stdout.strip() + ') and the quick check of ITS OWN property was run against it with the final checker (tools/seed_matrix.py, OWN_UPDATE). The column of OTHER checks is what the last full run found (previous session, /repo e686943, seeds a-j only; a full 348 x 20 run did not fit into this session) and is empty for the seeds k-u.'
     f.write('# Which checks catch which seeded changes\n\n'+note+'\n\n| seed | own property check | other checks that also fire | first report of the own check |\n|---|---|---|---|\n')
     for seed in sorted(old):
         res=old[seed]
